@@ -55,11 +55,43 @@ def run(rep: Report) -> None:
              "measurand expression of the same method", floor=13)
     rep.rule("R14.3", "no spurious singularity: a division by an operand's measurand must survive in f or in the "
              "simplified sigma^2", floor=4)
+    rep.rule("R14.8", "the Quantity operators Measurement arithmetic builds on (*, /, **) return the raw magnitudes combined, in the combined unit "
+             "(representation, not only value)", floor=3)
     rep.rule("R14.6", "Measurement.__init__ stores the measurand and abs(uncertainty) (a number being put in the measurand's unit) and nothing else", floor=2)
     rep.rule("R14.7", "Quantity's binary operators return NotImplemented for a Measurement operand (the reflected Measurement method decides)", floor=4)
     rep.rule("R07.9", "no assert in the package does part of the computation (python -O would drop it: sigma would be computed differently in optimised mode) - shared with C07", floor=1)
     rep.rule("R14.4", "the uncertainty is stored as abs(.) on every path of Measurement.__init__", floor=1)
     rep.rule("R14.5", "inventory: binary dunders that begin with the literal coercion Measurement(other, 0); the behaviour (a plain quantity acts as sigma = 0) is decided by R14.2 on the Quantity arm", armed=False, floor=13)
+    # R14.8: R14.1 and R14.2 read the measurand through the *specification* of the Quantity operator (magnitude**n in unit**n),
+    # while Measurement's formulas use the operands' raw magnitudes: that is the result's uncertainty in the result's unit only
+    # if the Quantity operator returns that representation, not merely an equal value in another unit
+    from .. import specs as _specs
+    from ..absint import UnitV as _UnitV
+    SPEC = {"Quantity.__mul__": _specs.q_mul, "Quantity.__truediv__": _specs.q_div, "Quantity.__pow__": _specs.q_pow}
+    for qq, spec_fn in SPEC.items():
+        qfi = prog.func(qq)
+        for args in default_arg_sets(prog, resolver, qq, "unit"):
+            qme = args["self"]
+            qother = [v for k, v in args.items() if k != "self"][0]
+            if not isinstance(qme, QuantV) or not isinstance(qother, (QuantV, IntParam)):
+                continue
+            try:
+                qrun = run_function(prog, resolver, qq, LAYERS, args)
+            except Unsupported as e:
+                raise AnalysisError(f"{qq}: {e}")
+            for o in qrun.outcomes:
+                if o.kind != "return" or not isinstance(o.value, QuantV):
+                    continue
+                want_q = spec_fn(qrun.interp, o.node, [qme, qother], {})
+                if not isinstance(want_q, QuantV):
+                    raise AnalysisError(f"{qq}: no specification value for operand {type(qother).__name__}")
+                key = f"{qq}[{type(qother).__name__}]" + ("|" + "&".join(("" if v else "not ") + t for t, v in o.path) if o.path else "")
+                same_unit = o.value.unit.same(want_q.unit)
+                same_mag = ren_rat(o.value.mag.rat, o.ren) == ren_rat(want_q.mag.rat, o.ren)
+                rep.check("R14.8", key, same_unit and same_mag,
+                          f"{qq} returns {describe(o.value)}; Measurement's formulas take the result to be the operands' raw magnitudes combined, in "
+                          f"{describe(want_q.unit)} - an equal value in another unit gives the uncertainty the wrong scale ((2 +- 0.1 km)**-1 gets +- 0.025 m^-1 "
+                          "instead of 2.5e-5)", qfi.where(o.node))
     for qual, kind in OPS.items():
         fi = prog.func(qual)
         for args in default_arg_sets(prog, resolver, qual, "unit"):
